@@ -12,6 +12,7 @@ import (
 	"strconv"
 	"strings"
 	"sync"
+	"sync/atomic"
 	"testing"
 	"time"
 )
@@ -296,6 +297,24 @@ func cmdReplay(t *testing.T, args []string) int {
 		fmt.Fprintf(os.Stderr, "unknown check %s\n", rf.Plan.Prop)
 		return 2
 	}
+	if rf.Violation != nil && strings.HasSuffix(rf.Violation.Sig, hangSuffix) {
+		hs := c.HangS
+		if hs <= 0 {
+			hs = 300
+		}
+		doneC := make(chan *Result, 1)
+		go func() { doneC <- execPlan(c, &Env{T: t, KeepLog: true}, rf.Plan) }()
+		select {
+		case <-doneC:
+			fmt.Printf("replay: plan finishes now (seed=%d)\n", rf.Plan.Seed)
+			return 0
+		case <-time.After(time.Duration(hs) * time.Second):
+			fmt.Printf("VIOLATION property=%s replay=%s\n", c.ID, pos[0])
+			fmt.Printf("  %s\n", rf.Violation.String())
+			os.Stdout.Sync()
+			os.Exit(1)
+		}
+	}
 	res := execPlan(c, &Env{T: t, KeepLog: true}, rf.Plan)
 	if f.str("log", "") != "" {
 		for i, l := range res.Log {
@@ -335,6 +354,12 @@ func cmdReplay(t *testing.T, args []string) int {
 	}
 	fmt.Printf("replay: different violation(s): %s (recorded %q)\n", res.Violations[0].String(), want)
 	return 2
+}
+
+const hangSuffix = "/operation-never-returns"
+
+func hangViolation(c *Check) *Violation {
+	return &Violation{Prop: c.ID, Oracle: "watchdog", Sig: c.ID + hangSuffix, Detail: "the plan did not finish within the watchdog budget: an operation of the code under test never returned"}
 }
 
 func panicViolation(c *Check, res *Result) *Violation {
@@ -671,6 +696,7 @@ func runWorker(c *Check, argv []string, tier string, start uint64, count, wallS,
 	pw.Close()
 	progress := make(chan struct{}, 1)
 	done := make(chan struct{})
+	var gotN, hungFlag int64
 	go func() {
 		tm := time.NewTimer(time.Duration(hangS) * time.Second)
 		defer tm.Stop()
@@ -691,7 +717,14 @@ func runWorker(c *Check, argv []string, tier string, start uint64, count, wallS,
 				a.mu.Lock()
 				a.hung++
 				a.mu.Unlock()
-				trouble <- fmt.Sprintf("worker for seeds %d.. hung (no result for %ds); killed", start, hangS)
+				if c.HangIsViolation {
+					// the plan that never came back is the first one without a result
+					seed := start + uint64(atomic.LoadInt64(&gotN))
+					a.add(c, &Result{Seed: seed, Violations: []*Violation{hangViolation(c)}, Nontrivial: true})
+					atomic.StoreInt64(&hungFlag, 1)
+				} else {
+					trouble <- fmt.Sprintf("worker for seeds %d.. hung (no result for %ds); killed", start, hangS)
+				}
 				return
 			}
 		}
@@ -706,6 +739,7 @@ func runWorker(c *Check, argv []string, tier string, start uint64, count, wallS,
 			continue
 		}
 		got++
+		atomic.StoreInt64(&gotN, int64(got))
 		select {
 		case progress <- struct{}{}:
 		default:
@@ -715,6 +749,13 @@ func runWorker(c *Check, argv []string, tier string, start uint64, count, wallS,
 	pr.Close()
 	err = cmd.Wait()
 	close(done)
+	if atomic.LoadInt64(&hungFlag) == 1 {
+		// continue after the plan that hung
+		if got+1 < count {
+			runWorker(c, argv, tier, start+uint64(got)+1, count-got-1, wallS, hangS, a, trouble)
+		}
+		return
+	}
 	if err != nil && got < count {
 		// exit 3 = panic already recorded in a result
 		if ee, ok := err.(*exec.ExitError); ok && ee.ExitCode() == 3 {
@@ -875,6 +916,15 @@ func minimiseAndConfirm(c *Check, argv []string, tier string, fd *found) (string
 			}
 		}
 		return code, string(out)
+	}
+	if strings.HasSuffix(fd.v.Sig, hangSuffix) {
+		// a hang cannot be shrunk in-process: keep the generated plan, confirm by a timed replay
+		os.WriteFile(final, b, 0o644)
+		os.Remove(raw)
+		if rcode, _ := run("replay", final); rcode == 1 {
+			return final, true
+		}
+		return final, false
 	}
 	code, out := run("shrink", raw, "--sig", fd.v.Sig, "--out", final)
 	if code == 0 {
